@@ -194,7 +194,53 @@ func c10Programs(thorough bool) []c10Prog {
 		"switch label {", "  case \"pos\" {", "    > {total: total, label: upper(label), items: [total, length(a)]} :: 201", "  }", "  default {", "    ? total >= 0 - 100 :: 400", "  }", "}",
 		"> {label: label, o: o.k, first: a[0]}",
 	}))
+	// constant-pool sweep: the same control-flow-rich body behind P distinct padding constants, for every P such that each
+	// operand of the body (constant and variable-name indices) takes every byte value that is also an opcode with or without
+	// operand (0x01 .. 0xB1): a table walker that misjudges one operand width re-synchronises on most small operands and only
+	// derails on such values. Round trip only (part 1); the fault enumeration of part 5 skips these files.
+	for _, pad := range c10PoolPads(thorough) {
+		var nums []string
+		for k := 0; k < pad; k++ {
+			nums = append(nums, fmt.Sprint(1000+k))
+		}
+		lines := []string{}
+		if pad > 0 {
+			lines = append(lines, "$ pad = ["+strings.Join(nums, ", ")+"]")
+		}
+		lines = append(lines,
+			"$ total = 0", "for j, v in a {", "  if v % 2 == 0 {", "    total = total + v * j", "  } else {", "    total = total - 1", "  }", "}",
+			"for w in a {", "  total = total + w", "}",
+			"$ i = 0", "while i < 3 {", "  i = i + 1", "}",
+			"$ f = async {", "  if b {", "    > 7", "  }", "  > 0", "}",
+			"> {t: total, i: i, f: await f, m: length(a)}")
+		add(c10Render(fmt.Sprintf("%s%d", c10PoolPrefix, pad), lines))
+	}
 	return ps
+}
+
+const c10PoolPrefix = "pool/"
+
+// c10PoolPads: quick = the paddings that put the body's first own constant on each opcode value the VM defines (and the
+// neighbours), thorough = every padding 0..190.
+func c10PoolPads(thorough bool) []int {
+	var out []int
+	if thorough {
+		for k := 0; k <= 190; k++ {
+			out = append(out, k)
+		}
+		return out
+	}
+	seen := map[int]bool{}
+	for _, op := range []int{0x01, 0x02, 0x10, 0x20, 0x28, 0x40, 0x41, 0x50, 0x51, 0x52, 0x53, 0x54, 0x55, 0x56, 0x61, 0x62, 0x70, 0x71, 0x80, 0x90, 0xA0, 0xB0, 0xB1} {
+		for d := -12; d <= 0; d++ { // the body owns about a dozen constants: let each of them land on op
+			if k := op + d; k >= 0 && !seen[k] {
+				seen[k] = true
+				out = append(out, k)
+			}
+		}
+	}
+	sort.Ints(out)
+	return out
 }
 
 // c10Inputs: the locals the compiled handler would inject (prep 0) and two variations.
